@@ -19,6 +19,16 @@ for d in sorted(glob.glob(V + '/seeded/*')):
     m = json.load(open(d + '/meta.json'))
     srows.append('| %s | %s | %s |' % (os.path.basename(d), m.get('status'), ', '.join(m.get('caught_by') or []) or '—'))
 t = t.replace('@@SEEDS@@', '\n'.join(srows))
+import subprocess
+nth = nex = 0
+for f in glob.glob(V + '/coq/Properties/*.v'):
+    src = open(f).read()
+    nth += len(re.findall(r'^Theorem ', src, re.M))
+    nex += len(re.findall(r'^Example ', src, re.M))
+nlines = sum(len(open(f).read().splitlines()) for d_ in ('Model', 'Proofs', 'Properties', 'Extract') for f in glob.glob(V + '/coq/%s/*.v' % d_))
+t = t.replace('@@NTHEOREMS@@', str(nth)).replace('@@NEXAMPLES@@', str(nex)).replace('@@NLINES@@', str(int(round(nlines, -2))))
+t = t.replace('@@NMODEL@@', str(len(glob.glob(V + '/coq/Model/*.v')))).replace('@@NPROOFS@@', str(len(glob.glob(V + '/coq/Proofs/*.v'))))
+t = t.replace('@@NSEEDS@@', str(len(glob.glob(V + '/seeded/*'))))
 cc = open(V + '/tools/coqchk.txt').read().strip() if os.path.exists(V + '/tools/coqchk.txt') else 'not run yet'
 t = t.replace('@@COQCHK@@', cc)
 d = open(V + '/DESIGN.md').read()
